@@ -239,6 +239,10 @@ func (fc *funcCtx) applyContract(st *State, ins ssa.Instruction, callee *ssa.Fun
 		fc.e.mu.Lock()
 		fc.e.used["assumed contract: "+con.Key] = true
 		fc.e.mu.Unlock()
+	} else if callee != fc.fn {
+		fc.e.mu.Lock()
+		fc.e.used["callee contract used at a call site: "+shortKey(con.Key)+" (its body is verified against it by the check of the property it belongs to)"] = true
+		fc.e.mu.Unlock()
 	}
 	if len(con.Params) != len(args) {
 		fc.abort("contract of %s names %d parameters, call passes %d", con.Key, len(con.Params), len(args))
